@@ -1,9 +1,19 @@
 // C13 implementation driver for lm/interpolate/merge_vocab.cc (MergeVocab + UniversalVocab).
+// Second case kind (lm/interpolate/bounded_sequence_encoding.hh, the packing of the per-model back-off levels):
+//   "B <bounds: hex bytes> <values: hex bytes>"   ("-" = empty)
+//   -> L:<EncodedLength> E:<encoded bytes hex|-> D:<decoded values hex|-> [OVERWRITE]
+//   Encode writes into a buffer pre-filled with 0xAA (bytes after EncodedLength must stay untouched); Decode reads from a
+//   copy of exactly EncodedLength bytes followed by 0xFF bytes (reading past the record changes the answer).
 // Input:  "V w,w,..;w,w,..;.."   per model the words (hex of the bytes; "-" = none beyond <unk>), any order
 // The driver writes each model's vocabulary file the way lmplz does (<unk> first, then increasing
 // HashForVocab), calls MergeVocab and prints
 //   H:<hash,..>;<hash,..>|G:<hash of universal word 1>,..|M:<universal index of model word 1>,..;..|N:<returned size>
+// bounded_sequence_encoding.hh tests `BYTE_ORDER == BIG_ENDIAN` without including the header that defines them; in the
+// library every translation unit has <endian.h> through earlier includes.  Do the same here (otherwise both macros
+// are undefined, compare equal as 0 == 0 and the big-endian branch is compiled on x86).
+#include <endian.h>
 #include "lm/enumerate_vocab.hh"
+#include "lm/interpolate/bounded_sequence_encoding.hh"
 #include "lm/interpolate/merge_vocab.hh"
 #include "lm/interpolate/universal_vocab.hh"
 #include "lm/vocab.hh"
@@ -43,6 +53,39 @@ class Collect : public lm::EnumerateVocab {
 int main() {
   std::string line;
   while (std::getline(std::cin, line)) {
+    if (line.size() >= 3 && line[0] == 'B') {
+      try {
+        std::stringstream in(line.substr(2));
+        std::string bh, vh;
+        in >> bh >> vh;
+        std::string bounds = bh == "-" ? std::string() : FromHex(bh);
+        std::string values = vh == "-" ? std::string() : FromHex(vh);
+        const unsigned char *bb = reinterpret_cast<const unsigned char*>(bounds.data());
+        lm::interpolate::BoundedSequenceEncoding enc(bb, bb + bounds.size());
+        std::size_t len = enc.EncodedLength();
+        std::vector<unsigned char> buf(len + 32, 0xAA);
+        enc.Encode(reinterpret_cast<const unsigned char*>(values.data()), &buf[0]);
+        bool overwrite = false;
+        for (std::size_t i = len; i < buf.size(); ++i) overwrite |= (buf[i] != 0xAA);
+        std::vector<unsigned char> rd(len + 32, 0xFF);
+        std::copy(buf.begin(), buf.begin() + len, rd.begin());
+        std::vector<unsigned char> dec(bounds.size() + 1, 0xEE);
+        enc.Decode(&rd[0], &dec[0]);
+        std::ostringstream out;
+        out << "L:" << std::hex << len << " E:";
+        if (!len) out << '-';
+        char tmp[4];
+        for (std::size_t i = 0; i < len; ++i) { std::snprintf(tmp, sizeof(tmp), "%02x", buf[i]); out << tmp; }
+        out << " D:";
+        if (bounds.empty()) out << '-';
+        for (std::size_t i = 0; i < bounds.size(); ++i) { std::snprintf(tmp, sizeof(tmp), "%02x", dec[i]); out << tmp; }
+        if (overwrite || dec[bounds.size()] != 0xEE) out << " OVERWRITE";
+        std::cout << out.str() << '\n';
+      } catch (const std::exception &e) {
+        std::cout << "EXCEPTION " << e.what() << '\n';
+      }
+      continue;
+    }
     if (line.size() < 3 || line[0] != 'V') { std::cout << "?\n"; continue; }
     try {
       std::vector<std::vector<std::string> > models;
